@@ -27,12 +27,16 @@ structure St where
   tr : Bool := false          -- tagreplication store (start purges invalid destinations)
   pollActive : Bool := false  -- a stepped poll pass has not returned yet
   mon : Mon := {}
+  raw : Config := {}          -- the configuration as written (0 = unset)
 
 def parseCfg (toks : List String) : Option St := do
   let n (k : String) (d : Nat) : Nat := ((kv? toks k).bind nat?).getD d
-  let cfg : Config := { capIn := n "capin" 1, capRe := n "capre" 1, nIn := n "win" 1, nRe := n "wre" 1,
+  -- the configuration as the user wrote it (0 = unset); the manager runs with `applyDefaults` of it
+  -- (the harness sets `Testing` unless a channel size is left unset)
+  let raw : Config := { capIn := n "capin" 1, capRe := n "capre" 1, nIn := n "win" 1, nRe := n "wre" 1,
                         retryInterval := n "ri" 1 }
-  pure { m := init cfg, tr := (kv? toks "store") == some "tr" }
+  let testing := raw.capIn ≠ 0 ∧ raw.capRe ≠ 0
+  pure { m := init (applyDefaults raw testing), tr := (kv? toks "store") == some "tr", raw := raw }
 
 /-- idle workers take from their channel until it is empty or they are all busy -/
 def eagerTakes : Nat → State → List Nat → State × List Nat
@@ -155,6 +159,16 @@ def step (s : St) (kind : String) (args impl : List String) : Option (St × Step
     let (pf, mon) := monitor s args impl
     some ({ s with m, pollActive, mon }, { obs := res ++ tail m started, branch := br, propfails := pf })
   match args with
+  | ["defaults"] =>
+    -- the effective configuration of the real manager (after the real applyDefaults)
+    let c := s.m.cfg
+    let w (k : String) : Nat := ((kv? impl k).bind nat?).getD 0
+    let pf := (if w "win" = 0 then ["side=impl key=no-incoming-workers-after-defaults the manager runs with 0 incoming workers: added tasks are never executed"] else []) ++
+      (if w "wre" = 0 then [s!"side=impl key=no-retry-workers-after-defaults the manager runs with 0 retry workers (configuration as written: win={s.raw.nIn} wre={s.raw.nRe}): tasks re-queued by the retry poller are never executed again"] else [])
+    some (s, { obs := [s!"win={c.nIn}", s!"wre={c.nRe}", s!"capin={c.capIn}", s!"capre={c.capRe}"],
+               branch := if s.raw.nIn = 1 ∧ s.raw.nRe = 0 then "defaults-applied-with-one-incoming-worker"
+                         else if s.raw.nIn = 0 ∨ s.raw.nRe = 0 ∨ s.raw.capIn = 0 ∨ s.raw.capRe = 0 then "defaults-applied" else "defaults-none",
+               propfails := pf })
   | ["add", kt, dt] => do
     let k ← key? kt
     let d ← nat? dt
